@@ -253,9 +253,9 @@ func (e *externalModule) addDeps(
 		depExternalModule, ok := moduleFullNameOrOpaqueIDToExternalModule[depFullNameOrOpaqueID]
 		if ok {
 			// If this dependency has already been seen, we can simply update our current module
-			// and return early.
+			// and move on to the next dependency.
 			e.Deps = append(e.Deps, depExternalModule)
-			return nil
+			continue
 		}
 		// Otherwise, we create a new external module for our direct dependency. However, we do
 		// not add it to our map yet, we only add it once all transitive dependencies have been
